@@ -80,7 +80,11 @@ top:
 		if 0 < i {
 			key = append(key, '|')
 		}
-		key = append(key, da.Type...)
+		if 0 < len(da.Type) {
+			key = append(key, da.Type...)
+		} else {
+			key = append(key, 't') // unspecialized parameter
+		}
 	}
 	aux.moo.Lock()
 	defer aux.moo.Unlock()
